@@ -99,6 +99,19 @@ def rule_C07(env):
         succ = cfg.successors(body)
         dom = cfg.dominators(succ)
         sorts = [i for i, t in calls if (cfg.callee_path(t) or "").endswith(("::sort_unstable", "::sort", "::sort_unstable_by_key", "::sort_by_key"))]
+        # select_nth_unstable(rank) also fixes the element of that rank (for distinct keys), provided only the middle element of
+        # its result is used: the two partitions around it stay in an order that depends on the input order
+        for j, t2 in calls:
+            if (cfg.callee_path(t2) or "").endswith(("::select_nth_unstable", "::select_nth_unstable_by_key")) and t2.get("dest"):
+                dl = t2["dest"]["l"]
+                parts_used = []
+
+                def see(d, dl=dl, parts_used=parts_used):
+                    if d.get("l") == dl and isinstance(d.get("p"), list) and d["p"] and isinstance(d["p"][0], dict) and d["p"][0].get("f") in (0, 2):
+                        parts_used.append(d["p"][0]["f"])
+                CG.walk_json(body, see)
+                if not parts_used:
+                    sorts.append(j)
         for i, t in its:
             nhash += 1
             res.count("hash-iter")
